@@ -49,6 +49,16 @@ EX = "onnx_ir._convenience._extractor"
 IU = "onnx_ir.analysis._implicit_usage"
 
 
+def _unalias(f, e):
+    """A local bound exactly once stands for the expression it is bound to (`enclosing = stack[1:]`)."""
+    if isinstance(e, ast.Name) and e.id not in f.params:
+        binds = [n for n in own_nodes(f.node) if (isinstance(n, ast.Assign) and any(isinstance(t, ast.Name) and t.id == e.id for t in n.targets))
+                 or (isinstance(n, (ast.AnnAssign, ast.AugAssign, ast.NamedExpr, ast.For)) and isinstance(getattr(n, "target", None), ast.Name) and n.target.id == e.id)]
+        if len(binds) == 1 and isinstance(binds[0], (ast.Assign, ast.AnnAssign)) and binds[0].value is not None:
+            return binds[0].value
+    return e
+
+
 def _graph_read(f, x):
     """The `<e>.graph` read an expression denotes: the attribute itself, or a local bound once to one (`owner = v.graph`)."""
     if isinstance(x, ast.Attribute) and x.attr == "graph":
@@ -337,7 +347,7 @@ def run(ctx):
     pushes = [c for c in calls_in(p) if norm(c.func) == f"{stacks[0]}.append"]
     pops = [c for c in calls_in(p) if norm(c.func) == f"{stacks[0]}.pop"]
     usage_params = [q for q in p.params if any(isinstance(n, ast.Assign) and isinstance(n.targets[0], ast.Subscript) and norm(n.targets[0].value) == q for n in own_nodes(p.node))]
-    ok = len(pushes) == len(pops) and len(pushes) >= 2
+    ok = len(pushes) == len(pops) and len(pushes) >= 1  # one push per dispatch branch, or one for a loop both branches feed
     for a in pushes:
         an = cfg.nodes_containing(a)[0]
         blk = getattr(getattr(a, "_parent", None), "_parent", None)
@@ -356,7 +366,7 @@ def run(ctx):
     ok = False
     for lp in (n for n in own_nodes(c.node) if isinstance(n, ast.For)):
         it = lp.iter
-        base = it.args[0] if isinstance(it, ast.Call) and dotted_of(it.func) == "reversed" and it.args else None
+        base = _unalias(c, it.args[0]) if isinstance(it, ast.Call) and dotted_of(it.func) == "reversed" and it.args else None
         if isinstance(base, ast.Subscript) and isinstance(base.slice, ast.Slice) and base.slice.upper is None and base.slice.step is None:
             base = base.value  # reversed(stack[1:]): the stack without the analysed graph at its bottom
         if not (isinstance(base, ast.Name) and base.id in c.params and isinstance(lp.target, ast.Name)):
@@ -381,7 +391,7 @@ def run(ctx):
         it = lp.iter
         if not (isinstance(it, ast.Call) and dotted_of(it.func) == "reversed" and it.args):
             continue
-        a0 = it.args[0]
+        a0 = _unalias(c, it.args[0])
         stores = [x for x in ast.walk(lp) if isinstance(x, ast.Subscript) and isinstance(lp.target, ast.Name) and norm(x.slice) == lp.target.id]
         if not stores:
             continue
